@@ -125,12 +125,15 @@ func builtinStringLastIndexOf(call FunctionCall) Value {
 		return intValue(lastIndexRune(value, target))
 	}
 	start := call.ArgumentList[1].number()
-	if start.kind == numberInfinity { // FIXME
-		// startNumber is infinity, so start is the end of string (start = length)
+	if start.kind == numberNaN || (start.kind == numberInfinity && start.float64 > 0) {
+		// position is NaN or +Infinity, so start is the end of string (start = length)
 		return intValue(lastIndexRune(value, target))
 	}
 	if 0 > start.int64 {
 		start.int64 = 0
+	}
+	if start.int64 > int64(length) {
+		start.int64 = int64(length)
 	}
 	end := int(start.int64) + len(target)
 	if end > length {
